@@ -14,7 +14,9 @@ ACTIONS = [("UtteranceBotAction", "script"), ("GestureBotAction", "gesture")]
 VALUES = [1, 2]
 
 
-RICH_VALUES = ['regex("ab.*c")', '{"a", "b"}', '[[1], {"k": [2, 3]}]', "None", "True", "1.5", '{"k": {"n": [1, {"z": "q"}]}}', '"text \\"quoted\\""', "[]", "{}", "-3"]
+RICH_VALUES = ['regex("ab.*c")', '{"a", "b"}', '[[1], {"k": [2, 3]}]', "None", "True", "1.5", '{"k": {"n": [1, {"z": "q"}]}}', '"text \\"quoted\\""', "[]", "{}", "-3",
+               # containers whose keys / members are not strings, tuples, sets inside containers, case-insensitive regexes
+               '{1: "a", 2: "b"}', "(1, 2)", '{"k": {"a", "b"}}', 'regex("(?i)ab")', "{(1, 2)}", "[(1, 2), (3,)]", "0.1", '{True: "t"}', '{1.5: [1]}']
 
 
 def render_args(args):
